@@ -7,6 +7,11 @@ VERIF = os.path.dirname(os.path.dirname(os.path.abspath(__file__)))
 
 # id -> (level, technique, level text, level note, design ref)
 CLAIMED = {
+    "C30": ("exploration",
+            "deterministic simulation: handlers that re-enter the object server, and calls issued at the earliest step after on-demand server creation; deadlock = quiescence with an unanswered call (no watchdog)",
+            "Method handlers, a property getter and a property setter that register/remove objects and emit signals are driven by 1..2 real client tasks; in the lazy variant the clients start exactly when object_server().at() has returned (single scheduler steps). The simulated world is closed, so a deadlock or a lost subscription is decided exactly as quiescence with an open call.",
+            "No timeouts configured; interleavings at task-poll granularity.",
+            "DESIGN.md §3 C30"),
     "C24": ("exploration",
             "deterministic simulation: concurrent at/remove/interface histories from local tasks plus remote calls and introspection from a second real connection; brute-force linearizability check against a set-of-registrations model",
             "Local tasks mutate the object tree over 5 nested paths x 3 interface types while a real client connection calls and introspects; every result (booleans, InterfaceNotFound, per-registration tokens, UnknownObject/UnknownInterface, introspected interface sets, mandatory child nodes) must admit a linearization (operations stamped with the global scheduler step). Thorough also enumerates all sequential histories of <= 3 mutating operations followed by a full sweep of lookups.",
